@@ -919,6 +919,11 @@ impl endpoint::Session for Session {
             .remove(&InputHandle::from(detach.handle.clone()))
         {
             Some(mut link) => {
+                // A closing detach destroys the link: no outcome will arrive any more
+                // for the deliveries that are still unsettled on it
+                if detach.closed {
+                    link.fail_unsettled_deliveries();
+                }
                 // The link endpoint may already have been dropped without an explicit
                 // close handshake (e.g. a `Sender`/`Receiver` that was simply dropped).
                 // In that case the frame cannot be forwarded and the detach reply is
